@@ -14,6 +14,29 @@ import (
 	"verif/uni"
 )
 
+// axes takes the two per-leaf axes every protocol shares (non-free choices: each costs one deviation): how the
+// parties' protocol objects were obtained (copies of party 0's, all constructed, a chain of copies) and what the
+// objects did before the judged run (nothing; a run at level 0; a run at the maximum level; a run with other
+// keys / another ciphertext shape at the same level). Results and smudging bounds must not depend on either.
+func axes(c *engine.Chooser) (inst, hist int) {
+	inst = c.Choose(3, "instances")
+	hist = c.Choose(4, "history")
+	c.Cover("instances", mp.InstanceNames[inst])
+	c.Cover("history", [...]string{"first-use", "after-run-at-level-0", "after-run-at-max-level", "after-run-with-other-keys"}[hist])
+	return
+}
+
+// warmLevel is the level of the warm-up run of the history axis.
+func warmLevel(hist, lvl, max int) int {
+	switch hist {
+	case 1:
+		return 0
+	case 2:
+		return max
+	}
+	return lvl
+}
+
 func isZero(v []*big.Int) bool { return ref.InfNorm(v).Sign() == 0 }
 
 // encryptUnder returns a fresh secret-key encryption of a uniform plaintext (noise: one error, sup B).
@@ -46,18 +69,25 @@ func ksLeaf(c *engine.Chooser, name string, k cfg) {
 	flood := mp.Flood(params, k.sigma)
 	_, sup := mp.KSNoise(params, flood)
 
-	protos := make([]multiparty.KeySwitchProtocol, k.n)
+	inst, hist := axes(c)
+	protos := mp.Instances(inst, k.n, func() multiparty.KeySwitchProtocol {
+		p, err := multiparty.NewKeySwitchProtocol(params, flood)
+		if err != nil {
+			panic(fmt.Sprintf("harness: %v", err))
+		}
+		return p
+	}, func(p multiparty.KeySwitchProtocol) multiparty.KeySwitchProtocol { return p.ShallowCopy() })
 	shares := make([]multiparty.KeySwitchShare, k.n)
 	for i := range protos {
-		var err error
-		if i == 0 {
-			protos[i], err = multiparty.NewKeySwitchProtocol(params, flood)
-			if err != nil {
-				c.Fail("C16/ks/NewKeySwitchProtocol/error", "%v", err)
-				return
+		if hist > 0 { // the object already produced a share: same key objects at another level, or other keys
+			lw := warmLevel(hist, lvl, params.MaxLevel())
+			a, b := In.SK[i], Out.SK[i]
+			if hist == 3 {
+				a, b = b, a
 			}
-		} else {
-			protos[i] = protos[0].ShallowCopy()
+			ctw, _ := encryptUnder(params, In.Ideal, lw, name, "warm-up", hist)
+			sh := protos[i].AllocateShare(lw)
+			protos[i].GenShare(a, b, ctw, &sh)
 		}
 		shares[i] = protos[i].AllocateShare(lvl)
 		protos[i].GenShare(In.SK[i], Out.SK[i], ct, &shares[i])
@@ -120,32 +150,43 @@ func pcksLeaf(c *engine.Chooser, name string, k cfg) {
 	floodSup := mp.XeSup(flood)
 	// per share: an encryption of zero under pkOut (u*e_pk + e0 + e1*s_out, rounding of the division by P when
 	// P exists: see C14's bound) plus one flooding error
-	N, B := int64(params.N()), mp.XeSup(params.Xe()).Int64()
+	N, B := mp.RingFactor(params), mp.XeSup(params.Xe()).Int64()
 	encZero := N*B + B + N*B
 	if params.PCount() > 0 {
 		encZero += int64(params.PCount()+1) * (1 + N)
 	}
 	perShare := new(big.Int).Add(big.NewInt(encZero), floodSup)
 
-	protos := make([]multiparty.PublicKeySwitchProtocol, k.n)
+	inst, hist := axes(c)
+	protos := mp.Instances(inst, k.n, func() multiparty.PublicKeySwitchProtocol {
+		p, err := multiparty.NewPublicKeySwitchProtocol(params, flood)
+		if err != nil {
+			panic(fmt.Sprintf("harness: %v", err))
+		}
+		return p
+	}, func(p multiparty.PublicKeySwitchProtocol) multiparty.PublicKeySwitchProtocol { return p.ShallowCopy() })
 	shares := make([]multiparty.PublicKeySwitchShare, k.n)
+	var pkOther *rlwe.PublicKey
+	if hist == 3 {
+		_, pkOther = rlwe.NewKeyGenerator(params).GenKeyPairNew()
+	}
 	for i := range protos {
-		var err error
-		if i == 0 {
-			protos[i], err = multiparty.NewPublicKeySwitchProtocol(params, flood)
-			if err != nil {
-				c.Fail("C16/pcks/NewPublicKeySwitchProtocol/error", "%v", err)
-				return
+		if hist > 0 { // the object already produced a share at another level / for another public key
+			lw := warmLevel(hist, lvl, params.MaxLevel())
+			pkw := pkOut
+			if hist == 3 {
+				pkw = pkOther
 			}
-		} else {
-			protos[i] = protos[0].ShallowCopy()
+			ctw, _ := encryptUnder(params, In.Ideal, lw, name, "warm-up", hist)
+			sh := protos[i].AllocateShare(lw)
+			protos[i].GenShare(In.SK[i], pkw, ctw, &sh)
 		}
 		shares[i] = protos[i].AllocateShare(lvl)
 		protos[i].GenShare(In.SK[i], pkOut, ct, &shares[i])
 		// noise of the share: h0 + h1*s_out - c1*s_i
 		h := &rlwe.Element[ring.Poly]{Value: shares[i].Value, MetaData: &rlwe.MetaData{}}
 		h.IsNTT = ct.IsNTT
-		ph := uni.Phase(params, h, skOut)
+		ph := mp.Phase(params, h, skOut)
 		c1s := mp.LinearResidual(params, params.RingQ().AtLevel(lvl).NewPoly(), ct.Value[1], ct.IsNTT, In.SK[i])
 		e := uni.SubCentered(ph, c1s, uni.QAtLevel(params, lvl))
 		if isZero(e) {
